@@ -25,7 +25,9 @@ EXPLANATION = (
     "(R12.2) the K-point remote i was created from and the K-point its result is stored on are the same element expression "
     "(both resolved through temporaries, helpers and index lists), and the serial and parallel arms accumulate identically; (R12.3) every path of run() "
     "to its return passes the coordinate-based re-ordering of tabulated results; (R12.4) the helper reads the "
-    "weighted result between set_result and clear_result. Decides the exactly-once/pairing/ordering clauses for "
+    "weighted result between set_result and clear_result; (R12.5) the options handed to ray.init carry the runtime_env merged by "
+    "get_ray_runtime_env (driver's package directory in py_modules) and no statement between that store and ray.init rewrites it; the list "
+    "returned by ray.wait is never used positionally. Decides the exactly-once/pairing/ordering clauses for "
     "every schedule; does not decide floating-point reassociation of the sum.")
 
 RG = "wannierberri/run_grid.py"
